@@ -17,16 +17,16 @@ Qed.
 Print Assumptions C11_literals_are_language.
 
 (* when matchExactRegex yields literals the regex is  ^ body $  with TEXT anchors, and it matches (anywhere in the
-   subject, as MatchString does) exactly the listed whole strings; /^$/ yields no literal and matches exactly "" *)
+   subject, as MatchString does) exactly the listed whole strings - none at all when the list is empty (an empty
+   character class); /^$/ yields the one literal "" *)
 Theorem C11_exact : forall re vals, match_exact re = Some vals ->
-  vals <> [] \/ (exists f, re = RConcat f [RBeginText; REndText]) ->
-  forall s, match_string re s = true <-> In s (exact_set vals).
+  forall s, match_string re s = true <-> In s vals.
 Proof. exact exact_matches. Qed.
 Print Assumptions C11_exact.
 
 Theorem C11_exact_shape : forall re vals, match_exact re = Some vals ->
   exists f body, re = RConcat f (RBeginText :: body ++ [REndText]) /\
-    ((body = [] /\ vals = []) \/ (body <> [] /\ match_regex (RConcat f body) = Some vals)).
+    ((body = [] /\ vals = [[]]) \/ (body <> [] /\ match_regex (RConcat f body) = Some vals)).
 Proof. exact match_exact_spec. Qed.
 Print Assumptions C11_exact_shape.
 
@@ -40,15 +40,15 @@ Qed.
 Print Assumptions C11_bound_alt.
 
 (* the rewritten condition has the same value as the original for every assignment of the declared kinds, provided
-   the two views of Go's regexp package agree on the rewritten patterns (Hlink) and the parser emits no empty class
-   or alternation (Hproper) — both checked by the harness on every pattern it sees *)
+   the two views of Go's regexp package agree on the rewritten patterns (Hlink, checked by the harness on every
+   pattern it sees).  An earlier version needed a second hypothesis - no empty character class - which the code did
+   not satisfy: /^[^\s\S]$/ was rewritten to = '' (repaired, fix 02831e0) *)
 Theorem C11_rewrite : forall orc G syn ifd m,
   env_ok orc G m ->
   (forall p re vals s, syn p = Some re -> match_exact re = Some vals -> o_re_match orc p s = match_string re s) ->
-  (forall p re, syn p = Some re -> match_exact re = Some [] -> exists f, re = RConcat f [RBeginText; REndText]) ->
   forall e t, typeof orc G e = Some t ->
     eval orc ifd m (rewrite_regex_conditions syn e) = eval orc ifd m e.
-Proof. intros orc G syn ifd m He Hl Hp e t Ht. exact (rewrite_regex_conditions_sound orc G syn ifd m He Hl Hp e t Ht). Qed.
+Proof. intros orc G syn ifd m He Hl e t Ht. exact (rewrite_regex_conditions_sound orc G syn ifd m He Hl e t Ht). Qed.
 Print Assumptions C11_rewrite.
 
 (* declined: case folding anywhere, line anchors, missing anchors, open repetition *)
